@@ -131,3 +131,23 @@ func HarnessC05PublishFromLoop() {
 	}()
 	vrt.Assert(g.Publish("in", newMsg(0)) == nil, "publish returns")
 }
+
+// HarnessC05PublishOtherTopic: in blocking mode a consumer publishes to ANOTHER topic of the same Pub/Sub before it
+// acks; the other topic's name is arbitrary (two arbitrary bytes after "o": whatever the Pub/Sub derives from
+// topic names - map slots, lock stripes - the solver may pick names that collide with "in"). Both the nested and
+// the outer Publish return.
+func HarnessC05PublishOtherTopic() {
+	g := NewGoChannel(Config{BlockPublishUntilSubscriberAck: true, Persistent: vrt.Bool("persistent")}, watermill.NopLogger{})
+	nb := vrt.Bytes("other.topic", 2)
+	vrt.Assume(len(nb) == 2)
+	other := "o" + string(nb)
+	ch, err := g.Subscribe(context.Background(), "in")
+	vrt.Assert(err == nil, "subscribe")
+	go func() {
+		m := <-ch
+		vrt.MustFinish()
+		vrt.Assert(g.Publish(other, newMsg(1)) == nil, "the nested publish to another topic returns (no subscribers there)")
+		m.Ack()
+	}()
+	vrt.Assert(g.Publish("in", newMsg(0)) == nil, "publish returns once the subscriber acked")
+}
